@@ -23,6 +23,40 @@ type litNode struct {
 
 func (p *Pkg) parseLit(e ast.Expr) (*litNode, error) {
 	if cl, ok := e.(*ast.CompositeLit); ok {
+		// a record of small integer fields {av, pr, ui} stands for the decimal
+		// number av·100 + pr·10 + ui (one digit per field, first field leftmost)
+		if tv, ok := p.Info.Types[cl]; ok && tv.Type != nil {
+			if st, ok := tv.Type.Underlying().(*types.Struct); ok {
+				vals := make([]int64, st.NumFields())
+				for i, el := range cl.Elts {
+					idx := i
+					v := el
+					if kv, ok := el.(*ast.KeyValueExpr); ok {
+						kid, isId := kv.Key.(*ast.Ident)
+						if !isId {
+							return nil, fmt.Errorf("record key in table literal")
+						}
+						idx = -1
+						for k := 0; k < st.NumFields(); k++ {
+							if st.Field(k).Name() == kid.Name {
+								idx = k
+							}
+						}
+						v = kv.Value
+					}
+					u, ok := constUint(p.Info, v)
+					if !ok || idx < 0 || idx >= len(vals) || u > 9 {
+						return nil, fmt.Errorf("record field in table literal is not a one-digit constant")
+					}
+					vals[idx] = int64(u)
+				}
+				var n int64
+				for _, v := range vals {
+					n = n*10 + v
+				}
+				return &litNode{Leaf: true, V: n}, nil
+			}
+		}
 		n := &litNode{Kids: map[int]*litNode{}}
 		idx := 0
 		for _, el := range cl.Elts {
@@ -291,6 +325,9 @@ func (w *World) checkLoopNest(m *scoreModel, ln *loopNest, add func(ok bool, rul
 		} else {
 			k := int(r.K[0] - '0')
 			row := root.Kids[k]
+			if r.PerEQ {
+				row = root // the table of this EQ alone: indexed by level directly
+			}
 			levels = map[string]*litNode{}
 			oracle = map[string][]string{}
 			if row != nil {
